@@ -24,7 +24,7 @@ for pid in claimed:
         'engine': 'tlc',
         'level_claimed': {
             'category': 'model_checking',
-            'text': plan.get('level_text', 'P_%s (spec/Props.tla) is evaluated by TLC on every recorded execution of the real library (trace validation) and, as an invariant, on the bounded model (%s); behaviours emitted by TLC are replayed on the real API and compared with the model\'s prediction; a sample of random executions is replayed through the full renderer specification (drift).' % (pid, mcs)),
+            'text': plan.get('level_text', 'P_%s (spec/Props.tla) is evaluated by TLC on every recorded execution of the real library (trace validation) and, as an invariant, on the bounded model (%s); behaviours emitted by TLC are replayed on the real API and compared with the model\'s prediction; a sample of random executions is replayed through the full renderer specification, and a sample of hook traces (one event per do_render_node call) is validated step by step against the step machine (spec/trace/TraceSteps.tla); both report drift, not verdicts.' % (pid, mcs)),
             'design_ref': 'DESIGN.md section 7 (%s)' % pid},
         'level_note': 'trusted: TLC/SANY + CommunityModules Json/IOUtils, html5ever tokenizer/tree builder, unicode-width, the harness abstraction (cells, own TreeSink DOM); exhaustive only within the stated MC bounds, random beyond them',
         'technique': plan.get('technique', TECH['default']),
@@ -36,9 +36,10 @@ m = {
     'hooks': {'guard': 'html2text_verif',
               'enable': 'harness/.cargo/config.toml passes --cfg html2text_verif (with --check-cfg) to rustc, which also applies to the path dependency /repo',
               'baseline_off_cmd': 'cd /repo && cargo test --workspace --no-fail-fast --offline',
-              'source_commits': [], 'add_only': True},
+              'source_commits': ['2b3f83258c694a3ff65a4a1b272a06b039ceb0ce'], 'add_only': True,
+              'what': 'one event per do_render_node call (node kind + 17 scalars of the renderer state), recorded only while html2text::verif::start() is active; validated by spec/trace/TraceSteps.tla'},
     'engines': [{'name': 'tlc', 'path': 'spec/', 'serves_properties': claimed,
-                 'kind_free_text': 'explicit TLA+ specification of html2text (Wrap, Tree, Render step machine, Api, Props) checked with TLC: bounded MC configs in spec/mc, trace specs in spec/trace; Rust harness h2tv generates/concretises/executes/abstracts'}],
+                 'kind_free_text': 'explicit TLA+ specification of html2text (Wrap, Tree, Render step machine, Css, Api, Props) checked with TLC: bounded MC configs in spec/mc, trace specs in spec/trace (TraceProps, TraceModel, TraceSteps); Rust harness h2tv generates/concretises/executes/abstracts'}],
     'checks': checks,
     'notes': 'See DESIGN.md. known_findings.json lists recorded findings and fixed defects.',
     'not_applicable': na,
